@@ -1,5 +1,6 @@
 // Constant probe for C18 (feeds translators/dv/gen_consts.py -> coq/Dv/GenConsts.v).
 //   cost_infinity   config.CostInfinity as the compiler evaluates it (through the verif hook Vf18Consts)
+//   seq_init/clock_ms  BEHAVIOURAL: the advertisement sequence number of a Router constructed at a known virtual time
 //   local_cost      BEHAVIOURAL: one real ribUpdate of an advertisement with known costs on a real router;
 //                   stored cost minus advertised cost (plain entry), and the same through the poison-reverse branch
 // Nothing here depends on the names of locals, declaration style or statement order inside ribUpdate.
@@ -10,6 +11,7 @@ import (
 	"os"
 	"testing"
 	"testing/synctest"
+	"time"
 
 	dvp "github.com/named-data/ndnd/dv/dv"
 	"github.com/named-data/ndnd/dv/tlv"
@@ -28,7 +30,10 @@ func TestConsts(t *testing.T) {
 	synctest.Test(t, func(t *testing.T) {
 		name := func(s string) enc.Name { n, _ := enc.NameFromStr(s); return n }
 		me, nb, x, y, z := name("/net/probe"), name("/net/nb"), name("/net/x"), name("/net/y"), name("/net/z")
+		// the unit of the initial advertisement sequence number: a Router constructed at a known virtual time
+		fmt.Fprintf(f, "clock_ms %d\n", time.Now().UnixMilli())
 		r := newRouter(me)
+		fmt.Fprintf(f, "seq_init %d\n", r.Vf18AdvertSeq())
 		r.Vf18AddNeighbor(nb)
 		adv := &tlv.Advertisement{Entries: []*tlv.AdvEntry{
 			{Destination: &tlv.Destination{Name: x}, NextHop: &tlv.Destination{Name: y}, Cost: 3, OtherCost: 7},
